@@ -7,7 +7,9 @@ rows=[]
 for name,m in sorted(T.items()):
     d=os.path.join(ROOT,'seeded',name)
     if not os.path.isdir(d): continue
-    log=open(os.path.join(d,'eval.log')).read() if os.path.exists(os.path.join(d,'eval.log')) else ''
+    log=''
+    for fn in ('eval.log','eval_first.log'):  # eval_first.log: the evaluation before a check was strengthened (kept when there was one)
+        if os.path.exists(os.path.join(d,fn)): log+=open(os.path.join(d,fn)).read()
     caught=sorted(set(re.findall(r'VIOLATION property=(C\d+)',log)))
     sigs=sorted(set(re.findall(r'sig="([^"]+)"',log)))[:6]
     meta={"name":name,"breaks_property":m["property"],"origin":"independent sub-agent given only the property text and a scratch worktree" + (" (round 2: it was also told the two round-1 changes for this property and asked for different ones)" if m.get("round")==2 else ""),
